@@ -218,6 +218,39 @@ def stepOld : Totp → Attempt → Totp × Outcome := stepWith lockNextOld
 def tight (s : Totp) (now : Int) : Bool :=
   decide (s.lastCheck + spacingNs = now) || decide (s.lockoutExp = now) || decide (s.lastFail + resetNs = now)
 
+/-! ### the periodic state cleanup and the limiter table
+
+`performStateCleanup` (every 30 s) deletes expired entries of `pendingOauth2`, `localAuthData` and
+`vipPushCookie`; it does not touch `totpLocalRateLimit`, so in the model a cleanup pass is the
+identity on `Totp`. Deleting a map entry means the next read sees the zero value (`pruned`). Which
+entries *could* be deleted without anybody ever noticing is `prunable`: past the spacing, no
+lock-out pending and **no failure counted**. -/
+
+/-- what `validateUserTOTP` reads after `delete(state.totpLocalRateLimit, user)`: the zero value; the
+accepted step lives in the user's profile and stays -/
+def pruned (s : Totp) : Totp := { Totp.init with lastSuccCounter := s.lastSuccCounter }
+
+def prunable (s : Totp) (now : Int) : Bool :=
+  decide (s.lastCheck + spacingNs ≤ now) && decide (s.lockoutExp ≤ now) && decide (s.failCount = 0)
+
+/-- the seeded "idle" test: no lock-out pending and past the spacing — but blind to `failCount` -/
+def idle (s : Totp) (now : Int) : Bool :=
+  !decide (s.lockoutExp > now) && decide (s.lastCheck + spacingNs < now)
+
+/-- single user: the outcomes of a list of attempts -/
+def outs (f : Totp → Attempt → Totp × Outcome) : Totp → List Attempt → List Outcome
+  | _, [] => []
+  | s, a :: as => (f s a).2 :: outs f (f s a).1 as
+
+def finalS (f : Totp → Attempt → Totp × Outcome) : Totp → List Attempt → Totp
+  | s, [] => s
+  | s, a :: as => finalS f (f s a).1 as
+
+/-- attempt times `lo ≤ t₁ ≤ t₂ ≤ …` -/
+def NonDecrA : Int → List Attempt → Prop
+  | _, [] => True
+  | lo, a :: as => lo ≤ a.now ∧ NonDecrA a.now as
+
 /-! ### many users: `totpLocalRateLimit` is a map keyed by user name -/
 
 def upd {U : Type} [DecidableEq U] {V : Type} (m : U → V) (u : U) (v : V) : U → V :=
